@@ -137,6 +137,11 @@ RedeclShape(x) == (NC >= 1 => NT = 0) /\ (NT >= 1 => NC = 0)
 PropMembers == <<{[Mem(k, "published") EXCEPT !.cm = cm] : k \in {"getter", "getter2", "seqget", "seqbad", "mprop", "mseq"}, cm \in TwoStyles}, {}>>
 PropShape(x) == \A c \in 1..NC : \A i \in 1..NM(c) : (Mbr(c, i).k \in {"getter", "getter2", "seqget", "seqbad"} => i = 1)
 
+\* ---- props2: TWO classes whose accessors, properties and sequences carry the SAME simple names (the renderer names
+\* the members of these libraries by their position only: k<i>m<j> in both classes), so that every property / sequence
+\* record has to be kept apart by its scope and must name the accessors of its own class
+Prop2Members == <<{Mem(k, "published") : k \in {"getter", "seqget", "mprop", "mseq"}}, {}>>
+
 \* ---- namespace-scope entities with comments
 DescTops == {[Top(k, TRUE, FALSE) EXCEPT !.cm = cm] : k \in {"func", "var", "macro"}, cm \in Styles}
 
